@@ -21,7 +21,7 @@ var c12Space = mkSpace("attribute-query", []fieldDim{
 	{"Issuer", []string{"", "b", "unregistered", "absent"}},
 	{"Sign", []string{"", "env-sha256", "env-sha1"}},
 	{"Signer", []string{"", "attacker", "sp-b"}},
-	{"Forge", []string{"", "sv-flip", "dv-flip", "attr-edit", "subject-edit", "sig-stripped", "xsw-dup-signed-first", "xsw-dup-evil-first", "xsw-two-bodies"}},
+	{"Forge", []string{"", "sv-flip", "dv-flip", "attr-edit", "subject-edit", "sig-stripped", "xsw-dup-signed-first", "xsw-dup-evil-first", "xsw-two-bodies", "xsw-prefix-rebind", "xsw-prefix-rebind-decoy-first", "xsw-header-decoy"}},
 	{"KeyInfo", []string{"", "no"}},
 	{"Dest", []string{"", "absent", "sso-location", "foreign", "prefixed-advertised", "prefixed-foreign"}},
 	{"Subject", []string{"", "bob", "unknown", "absent"}},
